@@ -68,12 +68,17 @@ def replay_all(behs, ev, vd, d, tag):
                 for h in b["hist"]]
         real = [(h["c"], h["k"], h["f"], h["out"], h["val"], h["inv"], h["res"]) for h in proj["hist"]]
         same_as_model = (pred == real and not drv.drift and proj["mem"] == b["mem"] and
-                         all(proj["bytes"][f] == b["bytes"][f] for f in FILES) and all(proj["disk"][f] == b["disk"][f] for f in FILES))
+                         all(proj["bytes"][f] == b["bytes"][f] for f in FILES) and all(proj["disk"][f] == b["disk"][f] or (drv.known_pattern and proj["disk"][f] == 99) for f in FILES))
+        # (two write tasks on one file can only overlap inside the listed region - the entry of the first was unloaded - and then
+        #  the later, shorter write leaves the tail of the longer one behind: content 99 = neither value; the model writes whole values)
         meta[tid] = (b, drv.known_pattern and same_as_model, drv.drift)
         if not same_as_model:
             drift += 1
             if len(ev.cov.setdefault("spec_drift_samples", [])) < 2:
-                ev.cov["spec_drift_samples"].append({"predicted": pred, "real": real, "notes": drv.drift[:3]})
+                ev.cov["spec_drift_samples"].append({"predicted": pred, "real": real, "notes": drv.drift[:3],
+                                                     "predicted_state": {"mem": b["mem"], "bytes": b["bytes"], "disk": b["disk"]},
+                                                     "real_state": {"mem": proj["mem"], "bytes": proj["bytes"], "disk": proj["disk"]},
+                                                     "steps": b["steps"]})
     verdicts = validate(d, traces, ev, tag)
     nviol = 0
     for tid, bad in verdicts.items():
